@@ -44,9 +44,6 @@ use crate::types::Segment;
 pub struct RaftLog<T: Types> {
     pub(crate) config: Arc<Config>,
 
-    /// Acquire the dir exclusive lock when writing to the log.
-    _dir_lock: FileLock,
-
     pub(crate) wal: RaftLogWAL<T>,
 
     pub(crate) state_machine: RaftLogStateMachine<T>,
@@ -57,6 +54,13 @@ pub struct RaftLog<T: Types> {
     removed_chunks: Vec<String>,
 
     access_stat: AccessStat,
+
+    /// Acquire the dir exclusive lock when writing to the log.
+    ///
+    /// Declared last: fields are dropped in declaration order, and the lock
+    /// must be released only after `wal` has joined the FlushWorker, i.e.
+    /// after the last write, sync or chunk removal in this directory.
+    _dir_lock: FileLock,
 }
 
 impl<T: Types> RaftLogWriter<T> for RaftLog<T> {
